@@ -254,6 +254,7 @@ theorem disjuncts_horn (b : Term) (h : bodyS fl b = true) : SLD.disjuncts b = [b
         exact hna c t hx'.1
       | ifthen c t hx' => simp at hx'
       | once x' hx' => simp at hx'
+      | neg x' hx' => simp at hx'
   · rfl
 
 /-- the clause as the reference stores it: `Head :- Body` -/
